@@ -542,6 +542,8 @@ def run(tier: str, only=None) -> core.Result:
           if not (tier == "quick" and n == 3 and c[-1] != "op")]
     out = explorer.explore(RUN_MC, mc, fidelity=True)
     sched.absorb(res, "mcpclient-sequences", RUN_MC, out, mc)
+    sched.debug_pass(res, "mcpclient-sequences", RUN_MC, mc, every=3)
+    sched.debug_pass(res, "grid", RUN, cfgs, every=37)
     vs = ["2025-06-18", "2025-03-26", "2024-11-05", "2099-01-01"]
     cc = []
     for l0 in ([vs[0]], [vs[1], vs[0]], [vs[3]]):
